@@ -921,7 +921,7 @@ def trak_table(r):
     """AAT `trak`: horizontal and / or vertical track data, one of the tracks is the normal one (value 0.0)"""
     import struct
     def data(off):
-        sizes = sorted(r.sample([6, 9, 12, 18, 24, 72, 144, 288], r.range(2, 5)))
+        sizes = sorted(r.sample([6, 9, 12, 18, 24, 72, 144, 288], r.range(1, 5)))
         tracks = sorted(set([0] + [r.choice([-1, 1, 2]) for _ in range(r.below(3))]))
         ns, nt = len(sizes), len(tracks)
         size_off = off + 8 + 8 * nt
